@@ -157,7 +157,10 @@ def store_then_use(rr, case, records):
             return out
         d_lazy, d_down = declared(lazy), declared(down)
         with write_monitor(rr.sim, records):
-            res, phase, exc = PR.compute(rr, arrays=[lazy, down])
+            # (forced-fusion and legacy optimizers have recorded findings of their own - C02/C17 - and are kept out of
+            # this phase)
+            opt2 = case.get("opt") if (case.get("opt") or {}).get("kind") in ("default", "off", "multi") else dict(kind="default")
+            res, phase, exc = PR.compute(rr, opt=opt2, arrays=[lazy, down])
         if res is None:
             if phase == "execute" and not isinstance(exc, (H.SimHang, H.SimStepLimit)):
                 out.append(dict(cls="store_then_use_failed_in_execution",
